@@ -21,12 +21,15 @@ structure StripSt where
   prev : Char := 'x'
   round : Int := 0
   square : Int := 0
+  inQuotes : Bool := false      -- (repair D24) between double quotes
 
 /-- the scan of `strip_comments`: index at which the comment starts, if any -/
 def commentStart : Text → Nat → StripSt → Option Nat
   | [], _, _ => none
   | ch :: rest, i, st =>
-    if ch == '(' then commentStart rest (i + 1) { st with round := st.round + 1, prev := ch }
+    if ch == '"' then commentStart rest (i + 1) { st with inQuotes := !st.inQuotes, prev := ch }
+    else if st.inQuotes then commentStart rest (i + 1) { st with prev := ch }
+    else if ch == '(' then commentStart rest (i + 1) { st with round := st.round + 1, prev := ch }
     else if ch == '[' then commentStart rest (i + 1) { st with square := st.square + 1, prev := ch }
     else if ch == ')' then commentStart rest (i + 1) { st with round := st.round - 1, prev := ch }
     else if ch == ']' then commentStart rest (i + 1) { st with square := st.square - 1, prev := ch }
@@ -76,11 +79,12 @@ def sepLoop : Text → SepSt → SepSt
     let decimalPoint := ch == '.' && nextIsDigit rest
     if ch == '.' && !decimalPoint && st.round == 0 && st.square == 0 && st.quotes % 2 == 0 then
       sepLoop rest { st with cur := [], rules := st.rules ++ [cur] }
+    else if ch == '"' then sepLoop rest { st with cur := cur, quotes := st.quotes + 1 }
+    else if st.quotes % 2 == 1 then sepLoop rest { st with cur := cur }      -- (repair D24) between double quotes
     else if ch == '(' then sepLoop rest { st with cur := cur, round := st.round + 1 }
     else if ch == '[' then sepLoop rest { st with cur := cur, square := st.square + 1 }
     else if ch == ')' then sepLoop rest { st with cur := cur, round := st.round - 1 }
     else if ch == ']' then sepLoop rest { st with cur := cur, square := st.square - 1 }
-    else if ch == '"' then sepLoop rest { st with cur := cur, quotes := st.quotes + 1 }
     else sepLoop rest { st with cur := cur }
 
 /-- `separate_rules`: `fail` = unmatched bracket -/
